@@ -79,6 +79,10 @@ def small_scenarios(rng, tier, wd):
     c7 = [rng.rbytes(40), rng.rbytes(32768), rng.rbytes(25), rng.rbytes(2 * 32768 + 777)]
     out.append((c04.Scn("k7-big-last", None, mk(c7, ht=1, cht=1)[0], None, "absent"), 1000, 1 << 16))
     out.append((c04.Scn("k7u-big-last-uflag", None, mk(c7, ht=1, cht=1, flags=4)[0], None, "absent"), 1000, 1 << 16))
+    # 8 chunks whose stored bytes are zeros (wholly, or in their first 32 KiB): once written they are complete chunks like any
+    #   other and must neither be re-fetched nor keep the update from converging
+    c8 = [rng.rbytes(30), bytes(40), bytes(32768 + 5), rng.rbytes(12), bytes(7)]
+    out.append((c04.Scn("k8-zero-chunks", None, mk(c8, ht=1, cht=1)[0], None, "absent"), 1000, 1 << 16))
     # 6 zstd pair from the tree's zck tool (edited old file as source), responses in 13-byte pieces, server allows 2 ranges
     zp = c04.zstd_pairs(vlib.Rng(vlib.seed() + 11), 2, wd)
     if zp:
